@@ -150,7 +150,7 @@ def validate(name, trace_path, nproc=8):
     return list(agg.values()), dict(events=events, skipped=skipped, outofdomain=outofdomain)
 
 
-MUTATING = {'AnnotateBatch', 'Reindex', 'AddResource', 'AddDataset', 'AddKey', 'InsertData', 'Annotate', 'RemoveAnnotation', 'RemoveResource',
+MUTATING = {'AnnotateBatch', 'QueryAdd', 'Reindex', 'AddResource', 'AddDataset', 'AddKey', 'InsertData', 'Annotate', 'RemoveAnnotation', 'RemoveResource',
             'RemoveDataset', 'RemoveData', 'RemoveKey', 'StripAnnotationIds', 'StripDataIds', 'ShrinkToFit', 'RoundTrip', 'ProtectText', 'Transpose'}
 
 
@@ -402,6 +402,8 @@ def arg_features(rec):
             f.append('off=' + a['off']['bk'] + a['off']['ek'])
     elif ev == 'OffsetReport':
         f.append('m=%d' % a['m'])
+    elif ev == 'QueryAdd':
+        f.append('sub=%s[%s],id=%s,data=%d' % (a['sub']['rt'], '+'.join(c['k'] for c in a['sub']['cs']), 'y' if a['id'] else 'n', len(a['data'])))
     elif ev == 'AnnotateBatch':
         f.append('via=%s,notarget=%d' % (a['via'], int(any(i['target']['kind'] == 'None' for i in a['items']))))
     elif ev == 'FindData':
